@@ -493,17 +493,20 @@ func (r *relay) outputBuffer(streamID uint32) *outputBuffer {
 // sendWindowUpdates sends WINDOW_UPDATE frames effectively acknowledging consumption of the
 // given data frame.
 func (r *relay) sendWindowUpdates(f *http2.DataFrame) error {
-	if len(f.Data()) <= 0 {
+	// The flow-controlled length of a DATA frame is its whole payload: data, padding and
+	// the padding length octet. See https://tools.ietf.org/html/rfc7540#section-6.1
+	n := f.Header().Length
+	if n <= 0 {
 		return nil
 	}
 	r.destMu.Lock()
 	defer r.destMu.Unlock()
 	// First updates the connection level window.
-	if err := r.dest.WriteWindowUpdate(0, uint32(len(f.Data()))); err != nil {
+	if err := r.dest.WriteWindowUpdate(0, n); err != nil {
 		return err
 	}
 	// Next updates the stream specific window.
-	return r.dest.WriteWindowUpdate(f.StreamID, uint32(len(f.Data())))
+	return r.dest.WriteWindowUpdate(f.StreamID, n)
 }
 
 func (r *relay) decodeFull(data []byte) ([]hpack.HeaderField, error) {
